@@ -521,7 +521,14 @@ impl Model {
 // subject
 // ---------------------------------------------------------------------------------------------
 
+/// Size class whose value is the same bytes for every put (all other values are distinct per
+/// step): lets a history re-put byte-identical content under another TTL class.
+pub const SAME_VALUE_SIZE: u32 = 7;
+
 fn value_for(seed: u64, step: usize, size: u32) -> Bytes {
+    if size == SAME_VALUE_SIZE {
+        return Bytes::from_static(b"SAMEVAL");
+    }
     // first byte identifies the put (distinct per step), the rest is seed-dependent filler
     let mut v = Vec::with_capacity(size as usize);
     for j in 0..size as usize {
@@ -952,8 +959,9 @@ fn disk_subject(subdirs: bool, seed: u64, rich: bool) -> Subject {
         // "a" plus the colliding pair; "b" joins in the thorough tier
         keys: if rich { vec![0, 1, 2, 3] } else { vec![0, 2, 3] },
         sizes: if rich { vec![0, 1, 100] } else { vec![0, 100] },
-        sizes_ttl0: vec![1],
-        sizes_hour: vec![100],
+        // 7 = SAME_VALUE_SIZE: byte-identical content re-put under the other TTL class
+        sizes_ttl0: vec![1, SAME_VALUE_SIZE],
+        sizes_hour: vec![100, SAME_VALUE_SIZE],
         seed,
         memo: Mutex::new(HashMap::new()),
     }
